@@ -36,6 +36,7 @@ struct Run {
     ids: u64,
     by_kind: HashMap<String, u64>,
     noncanon: u64,
+    finds: u64,
 }
 
 impl Run {
@@ -129,6 +130,29 @@ fn tx_artefacts(run: &mut Run, src: &str, i: usize, tx: &MultiEraTx, body: &[u8]
     }
     for (n, l) in ds.iter().zip(lib_ds) {
         run.artefact("datum", n.raw(wits), l.original_hash().as_ref(), "KeepRaw<PlutusData>::original_hash", &at);
+    }
+    // lookups by hash observe the datum identity as well: by the hash of the wire bytes (must find) and by the
+    // hash of the library's re-encoding when that differs (must not find, unless it is another datum's wire hash)
+    if !ds.is_empty() && ds.len() <= 40 {
+        let among: Vec<u64> = ds.iter().map(|n| run.bid(n.raw(wits))).collect();
+        for (n, l) in ds.iter().zip(lib_ds) {
+            let wire = n.raw(wits);
+            let canon = pallas_codec::minicbor::to_vec(std::ops::Deref::deref(l)).unwrap_or_default();
+            let mut probes = vec![("wire", Hasher::<256>::hash(wire))];
+            if canon != wire && !canon.is_empty() {
+                probes.push(("re-encoding", Hasher::<256>::hash(&canon)));
+            }
+            for (what, h) in probes {
+                let found = match tx.find_plutus_data(&h) {
+                    Some(k) => run.bid(k.raw_cbor()),
+                    None => 0,
+                };
+                let by = run.did(h.as_ref());
+                run.ev(json!({"ev": "find", "kind": "datum", "among": among, "by": by, "found": found,
+                              "api": format!("MultiEraTx::find_plutus_data(hash of {what})"), "at": at}));
+                run.finds += 1;
+            }
+        }
     }
     // plutus scripts (keys 3, 6, 7): tag o content of the byte string
     let v1: Vec<Vec<u8>> = tx.plutus_v1_scripts().iter().map(|s| s.compute_hash().to_vec()).collect();
@@ -272,8 +296,8 @@ fn rewrite(buf: &[u8], root: &Node, focus: raw::Span, style: Style, rng: &mut Rn
 // ------------------------------------------------------------------ minimal artefacts
 /// datums whose whole encoding is one byte, two bytes, and non-canonical spellings of small values
 const DATUMS_1: &[&[u8]] = &[&[0x00], &[0x17], &[0x20], &[0x37], &[0x80], &[0xa0], &[0x40]];
-const DATUMS_2: &[&[u8]] = &[&[0x18, 0x18], &[0x38, 0x18], &[0x41, 0x00], &[0x81, 0x00], &[0x81, 0x80], &[0xa1, 0x00, 0x00], &[0xd8, 0x79, 0x80]];
-const DATUMS_NC: &[&[u8]] = &[&[0x18, 0x00], &[0x19, 0x00, 0x01], &[0x38, 0x00], &[0x9f, 0xff], &[0xbf, 0xff], &[0x5f, 0xff],
+const DATUMS_2: &[&[u8]] = &[&[0x18, 0x18], &[0x38, 0x18], &[0x41, 0x00], &[0x81, 0x00], &[0x81, 0x80], &[0xa1, 0x00, 0x00], &[0xd8, 0x79, 0x80], &[0xd8, 0x66, 0x82, 0x05, 0x80]];
+const DATUMS_NC: &[&[u8]] = &[&[0x18, 0x00], &[0x18, 0x01], &[0x19, 0x00, 0x01], &[0x38, 0x00], &[0x9f, 0xff], &[0xbf, 0xff], &[0x5f, 0xff],
     &[0x58, 0x00], &[0x98, 0x00], &[0xb8, 0x00], &[0xd8, 0x79, 0x9f, 0xff], &[0xd9, 0x00, 0x79, 0x80], &[0x1b, 0, 0, 0, 0, 0, 0, 0, 0]];
 /// smallest native scripts: all [] / any [] / at-least 0 of [] / invalid_before 0 / invalid_hereafter 0, and spellings
 const NATIVES: &[&[u8]] = &[&[0x82, 0x01, 0x80], &[0x82, 0x02, 0x80], &[0x83, 0x03, 0x00, 0x80], &[0x82, 0x04, 0x00], &[0x82, 0x05, 0x00]];
@@ -290,7 +314,7 @@ fn bytes_item(content: &[u8]) -> Vec<u8> {
 /// A real block of an Alonzo+ era with minimal artefacts spliced into transaction `i`:
 /// datums and scripts into its witness set, and (Babbage+) outputs carrying the datums inline and the
 /// scripts as reference scripts.  Everything else is the block's own wire bytes.
-fn inject(buf: &[u8], tag: u64, i: usize, datums: &[&[u8]], natives: &[&[u8]], plutus: &[&[u8]]) -> Result<Vec<u8>, String> {
+fn inject(buf: &[u8], tag: u64, i: usize, datums: &[&[u8]], natives: &[&[u8]], plutus: &[&[u8]], inline_only: bool) -> Result<Vec<u8>, String> {
     let mut root = cbor::parse(buf)?;
     let blk = match &mut root.kind {
         Kind::Array(top, _) => match &mut top[1].kind {
@@ -306,7 +330,7 @@ fn inject(buf: &[u8], tag: u64, i: usize, datums: &[&[u8]], natives: &[&[u8]], p
             _ => return Err("witness sets".into()),
         };
         for (key, items) in [(4u8, datums), (1u8, natives)] {
-            if items.is_empty() {
+            if items.is_empty() || inline_only {
                 continue;
             }
             let arr = wits.map_entry_array(key).ok_or("witness entry")?;
@@ -383,6 +407,7 @@ pub fn trace(args: &Args) {
         ids: 0,
         by_kind: HashMap::new(),
         noncanon: 0,
+        finds: 0,
     };
     let mut info = Ndjson::create(args.get("info"));
     let mut blocks = raw::corpus_files(".block");
@@ -477,7 +502,7 @@ pub fn trace(args: &Args) {
             for (g, ds, ns, ps) in groups {
                 inj_tried += 1;
                 let src = format!("{name}+{g}@{i}");
-                match inject(buf, tag, i, &ds, &ns, &ps) {
+                match inject(buf, tag, i, &ds, &ns, &ps, false) {
                     Ok(nb) => match block_artefacts(&mut run, &src, &nb) {
                         Ok(true) => inj_decoded += 1,
                         Ok(false) => info.ev(json!({"ev": "skip", "src": src, "why": "injected block not decoded by the library"})),
@@ -533,9 +558,31 @@ pub fn trace(args: &Args) {
             }
         }
     }
+    // the tag-102 constructor with an indefinite outer array (general form [tag, fields]) as an inline datum
+    // (inside #6.24 bytes; in a witness list the library does not decode it); kept at the end of the trace: one
+    // block per era that has inline datums
+    for tag in 6u64..=7 {
+        let cand = blocks
+            .iter()
+            .filter(|(_, b)| raw::parse_block(b).map(|r| r.tag == tag && !r.bodies.is_empty() && r.wits.len() == r.bodies.len()).unwrap_or(false))
+            .filter(|(_, b)| MultiEraBlock::decode(b).is_ok())
+            .min_by_key(|(_, b)| b.len());
+        if let Some((name, buf)) = cand {
+            let src = format!("{name}+constr102-indef@0");
+            inj_tried += 1;
+            match inject(buf, tag, 0, &[&[0xd8, 0x66, 0x9f, 0x05, 0x80, 0xff]], &[], &[], true) {
+                Ok(nb) => match block_artefacts(&mut run, &src, &nb) {
+                    Ok(true) => inj_decoded += 1,
+                    Ok(false) => info.ev(json!({"ev": "skip", "src": src, "why": "injected block not decoded by the library"})),
+                    Err(e) => info.ev(json!({"ev": "skip", "src": src, "why": e})),
+                },
+                Err(e) => info.ev(json!({"ev": "skip", "src": src, "why": format!("inject: {e}")})),
+            }
+        }
+    }
     let by_focus: HashMap<String, Value> = by_focus.into_iter().map(|(k, v)| (k.to_string(), json!({"tried": v.0, "decoded": v.1}))).collect();
     info.ev(json!({"ev": "stats", "blocks": blocks.len(), "ids": run.ids, "events": run.seq, "by_kind": run.by_kind,
-                   "injected_tried": inj_tried, "injected_decoded": inj_decoded, "rewrites_tried": tried, "rewrites_unchanged": same, "rewrites_decoded": decoded, "by_focus": by_focus}));
+                   "finds": run.finds, "injected_tried": inj_tried, "injected_decoded": inj_decoded, "rewrites_tried": tried, "rewrites_unchanged": same, "rewrites_decoded": decoded, "by_focus": by_focus}));
     info.finish();
     run.out.finish();
 }
